@@ -4,6 +4,7 @@ package main
 // function and evaluates the failed clause (compiled Go, the same text the verifier translated).
 
 import (
+	"sort"
 	"encoding/json"
 	"fmt"
 	"go/types"
@@ -227,7 +228,7 @@ func (g *Gen) replay(o *Oblig, rf *replayFile) {
 	}
 	ex := o.ex
 	con := ex.con
-	if con == nil || !(o.Kind == "ensures" && o.Clause != nil || o.Kind == "create" && con.Replay == "vmexec") {
+	if con == nil || !(o.Kind == "ensures" && o.Clause != nil || o.Kind == "safe" || o.Kind == "create" && con.Replay == "vmexec") {
 		rf.Replay = "no-adapter"
 		rf.Reason = "no replay adapter for obligation kind " + o.Kind
 		return
@@ -267,11 +268,42 @@ func (g *Gen) scalarReplaySource(o *Oblig) (string, string) {
 	pkg := fn.Pkg.Pkg
 	mv := modelValues(o.Res.Model)
 	var decls, argNames []string
+	var strCands []string
+	strParam := ""
 	for i, p := range fn.Params {
 		name := fmt.Sprintf("a%d", i)
 		v := mv["p_"+sanitize(p.Name())]
 		if v == nil {
 			return "", "model has no value for parameter " + p.Name()
+		}
+		if b, isB := p.Type().Underlying().(*types.Basic); isB && b.Info()&types.IsString != 0 {
+			// candidates: the model's value of the parameter, then of every string the function carries
+			// around a loop (the unread rest of the input: running on that rest reaches the same state)
+			var cands []string
+			if lit, why := modelString(mv, "p_"+sanitize(p.Name())); why == "" {
+				cands = append(cands, lit)
+			}
+			var keys []string
+			for k := range mv {
+				if strings.HasPrefix(k, "(str_len lv_") {
+					keys = append(keys, strings.TrimSuffix(strings.TrimPrefix(k, "(str_len "), ")"))
+				}
+			}
+			sort.Strings(keys)
+			for _, k := range keys {
+				if lit, why := modelString(mv, k); why == "" {
+					cands = append(cands, lit)
+				}
+			}
+			if len(cands) == 0 {
+				return "", fmt.Sprintf("parameter %s: no string in the model can be rebuilt", p.Name())
+			}
+			ts := types.TypeString(p.Type(), types.RelativeTo(pkg))
+			strCands = cands
+			strParam = name
+			decls = append(decls, fmt.Sprintf("\tvar %s %s = %s(__rp_cand)", name, ts, ts))
+			argNames = append(argNames, name)
+			continue
 		}
 		ge, ok := g.goExpr(ex.e, p.Type(), v, pkg)
 		if !ok {
@@ -293,12 +325,15 @@ func (g *Gen) scalarReplaySource(o *Oblig) (string, string) {
 		resNames = append(resNames, fmt.Sprintf("r%d", i))
 	}
 	cl := o.Clause
-	if len(cl.Bound) > 0 {
-		return "", "clause has quantified variables"
-	}
-	csrc := g.clauseSource(cl, "__rp_clause")
-	if csrc == "" {
-		return "", "clause source not found"
+	csrc := ""
+	if cl != nil {
+		if len(cl.Bound) > 0 {
+			return "", "clause has quantified variables"
+		}
+		csrc = g.clauseSource(cl, "__rp_clause")
+		if csrc == "" {
+			return "", "clause source not found"
+		}
 	}
 	imports := map[string]bool{"testing": true, "fmt": true, "math": true}
 	var b strings.Builder
@@ -317,6 +352,23 @@ func (g *Gen) scalarReplaySource(o *Oblig) (string, string) {
 	}
 	b.WriteString(")\n\nvar _ = math.Abs\n\nfunc __rp_old[T any](x T) T { return x }\n\n")
 	b.WriteString(csrc + "\n\n")
+	if cl == nil {
+		// a bounds/nil obligation: the input violates it iff the real function raises a Go runtime error
+		if strParam == "" {
+			strCands = []string{"\"\""}
+		}
+		fmt.Fprintf(&b, "func TestGvcReplay(t *testing.T) {\n\tfor _, __rp_cand := range []string{%s} {\n\t\tif __rpOne(__rp_cand) {\n\t\t\treturn\n\t\t}\n\t}\n\tfmt.Println(\"GVC-REPLAY: HOLDS\")\n}\n\n", strings.Join(strCands, ", "))
+		b.WriteString("func __rpOne(__rp_cand string) (violated bool) {\n\tdefer func() {\n\t\tif r := recover(); r != nil {\n\t\t\tif _, isRT := r.(interface{ RuntimeError() }); isRT {\n\t\t\t\tfmt.Println(\"GVC-REPLAY: VIOLATED\", r)\n\t\t\t\tviolated = true\n\t\t\t} else {\n\t\t\t\tfmt.Println(\"GVC-REPLAY: other panic\", r)\n\t\t\t}\n\t\t}\n\t}()\n\t_ = __rp_cand\n")
+		b.WriteString(strings.Join(decls, "\n") + "\n")
+		fmt.Fprintf(&b, "\tfmt.Printf(\"GVC-REPLAY: inputs %s\\n\", %s)\n", strings.Repeat("%q ", len(argNames)), strings.Join(argNames, ", "))
+		if nres > 0 {
+			fmt.Fprintf(&b, "\t%s := %s\n\t_ = []interface{}{%s}\n", strings.Join(resNames, ", "), call, strings.Join(resNames, ", "))
+		} else {
+			fmt.Fprintf(&b, "\t%s\n", call)
+		}
+		b.WriteString("\treturn false\n}\n")
+		return b.String(), ""
+	}
 	b.WriteString("func TestGvcReplay(t *testing.T) {\n\tdefer func() {\n\t\tif r := recover(); r != nil {\n\t\t\tfmt.Println(\"GVC-REPLAY: PANIC\", r)\n\t\t}\n\t}()\n")
 	b.WriteString(strings.Join(decls, "\n") + "\n")
 	if nres > 0 {
@@ -574,4 +626,36 @@ func autoPatterns(body string, binders []string) string {
 		}
 	}
 	return strings.Join(out, " ")
+}
+
+// modelString builds a Go string literal from the model's values of (str_len p) and (str_at p i).
+func modelString(mv map[string]*sexp, p string) (string, string) {
+	lv := mv["(str_len "+p+")"]
+	if lv == nil {
+		return "", "the model has no length for the string"
+	}
+	ls, ok := sexpInt(lv)
+	if !ok {
+		return "", "string length is not a number"
+	}
+	n, err := strconv.Atoi(ls)
+	if err != nil || n < 0 || n > 48 {
+		return "", fmt.Sprintf("string of length %s cannot be rebuilt (only the first 48 bytes are part of the model)", ls)
+	}
+	var b strings.Builder
+	b.WriteString("\"")
+	for i := 0; i < n; i++ {
+		cv := mv[fmt.Sprintf("(str_at %s %d)", p, i)]
+		if cv == nil {
+			return "", "missing byte in the model"
+		}
+		cs, ok := sexpInt(cv)
+		c, err := strconv.Atoi(cs)
+		if !ok || err != nil || c < 0 || c > 255 {
+			return "", fmt.Sprintf("byte %d of the string is not a byte in the model (%s)", i, cv)
+		}
+		fmt.Fprintf(&b, "\\x%02x", c)
+	}
+	b.WriteString("\"")
+	return b.String(), ""
 }
